@@ -25,6 +25,7 @@ The driver evaluates the *metamorphic* oracles on the recorded results of three 
           manual filter: nothing may change.
 """
 import hashlib
+import copy
 import inspect
 import os
 
@@ -130,6 +131,7 @@ class _S:
     reference = True
     case_info = None
     calls = 0
+    intent = {}         # id(settings dict the client keeps) -> what the client put into it
 
 
 def selection(ds):
@@ -186,6 +188,16 @@ def _make(fn, judge, sig_of=None, method=True):
                 ctx.count("skipped_out_of_domain_call")
                 return orig(*args, **kwargs)
             ds = params.pop("self", None) if method else params.get("ds")
+            kk = params.get("kde_kwargs")
+            if isinstance(kk, dict):
+                # judged against the settings the client made (a settings dict the client
+                # keeps and passes again holds what the client put into it)
+                intended = _S.intent.get(id(kk))
+                if intended is not None and intended[0] is kk:
+                    ctx.count("calls_with_the_settings_dict_the_client_keeps")
+                    params["kde_kwargs"] = copy.deepcopy(intended[1])
+                else:
+                    params["kde_kwargs"] = copy.deepcopy(kk)
             rec = _record(fn, ds, params)
             ctx.count(f"calls[{fn}:{_S.role}]")
             try:
@@ -767,6 +779,18 @@ def _kde_common(rng, env, G, big_ok):
     return xax, yax, xscale, yscale, x, y, kde
 
 
+def _client_settings(env):
+    """The (empty) KDE settings dict the client keeps for this dataset and passes to every
+    call that uses the defaults."""
+    kw = getattr(env, "client_kw", None)
+    if kw is None:
+        kw = env.client_kw = {}
+        if len(_S.intent) > 64:
+            _S.intent.clear()
+        _S.intent[id(kw)] = (kw, {})
+    return kw
+
+
 def op_scatter(ctx, env, rng, G, fixed=None):
     if fixed is None:
         xax, yax, xscale, yscale, x, y, kde = _kde_common(rng, env, G, True)
@@ -776,6 +800,8 @@ def op_scatter(ctx, env, rng, G, fixed=None):
             if pos is None:
                 kde = "histogram"
         kw = G.gen_kde_kwargs(rng, kde, x, y, xscale, yscale)
+        if kw is None and rng.random() < 0.4:
+            kw = _client_settings(env)
         if rng.random() < 0.1:
             xax, kde = xax.upper(), kde.capitalize()      # documented: case-insensitive
     else:
@@ -801,6 +827,8 @@ def op_contour(ctx, env, rng, G, fixed=None, quantiles=True):
         else:
             xacc, yacc = G.gen_accuracy(rng, x, y, xscale, yscale, 45)
         kw = G.gen_kde_kwargs(rng, kde, x, y, xscale, yscale)
+        if kw is None and rng.random() < 0.4:
+            kw = _client_settings(env)
         qs, qkind = G.gen_quantiles(rng)
         normalize = bool(rng.random() < 0.6)
     else:
@@ -1015,8 +1043,14 @@ def _refilter_phase(ctx, env, rng, G, feats):
                  lambda d: statistics.get_statistics(d, methods=methods, features=features), True)
         if len(feats) >= 2:
             kde = str(rng.choice(["histogram", "gauss", "multivariate"]))
+            kw = _client_settings(env) if rng.random() < 0.6 else None
             _observe(ctx, ds, "orig",
-                     lambda d: d.get_kde_scatter(xax=feats[0], yax=feats[1], kde_type=kde), True)
+                     lambda d: d.get_kde_scatter(xax=feats[0], yax=feats[1], kde_type=kde,
+                                                 kde_kwargs=kw), True)
+            if rng.random() < 0.4:
+                _observe(ctx, ds, "orig",
+                         lambda d: d.get_kde_contour(xax=feats[0], yax=feats[1], kde_type=kde,
+                                                     kde_kwargs=kw), True)
         path = boot.scratch() / f"c12-{os.getpid()}-{ctx.case}-refilter.tsv"
         env.tmp.append(path)
         tf = G.gen_tsv_features(rng, feats)
